@@ -20,7 +20,8 @@
  "name": "dump_file",
  "props": ["C18"],
  "level": "U/iter",
- "tier": "quick",
+ "tier": "wip",
+ "tier_after_hooks": "quick",
  "harness": "h_dump_file",
  "loop_contracts": true,
  "replace": ["fix_perms"],
